@@ -30,3 +30,4 @@ func vfAssert(ok bool, id string)
 func vfReach(id string)
 func vfFail(id string)
 func vfNote(s string)
+func vfBytes(name string, n int) string
